@@ -6,9 +6,9 @@ import os
 V = os.path.dirname(os.path.dirname(os.path.abspath(__file__)))
 
 P = {
- "C01": ("proof", "§6 C01", "kernel-checked theorems about the Lean model of the Core components + correspondence code vs model + W3C reference oracle on the code",
-         "theorem + differential correspondence",
-         "Lean kernel; Impl model of pyshacl/constraints/core tied to /repo by the validate op on generated cases (exhaustive type cross products + random shapes); reference oracle written from the W3C text; regex engine and rdflib literal value mapping are parameters"),
+ "C01": ("proof", "§6 C01 / §10", "34 kernel-checked theorems: one `_exact` theorem per Core component against a declarative reading of the W3C text (SPARQL 1.1 operator mapping, rdf:type/rdfs:subClassOf* instances, langMatches), the comparison lemma compare_literal = SPARQL <,<= on every pairing of value classes, composition (results of a shape = union of its components, one instance each), dispatch table and component IRIs over the regenerated table, verdict iff no results; correspondence code vs model + W3C reference oracle on the code",
+         "theorem (declarative spec = executable model, all inputs) + differential correspondence",
+         "Lean kernel; Impl model of pyshacl/constraints/core tied to /repo by the validate op on generated cases (exhaustive type cross products + random shapes); reference oracle written from the W3C text; regex engine and rdflib literal value mapping are parameters; sh:closed is _partial (open finding: rdf:type rdfs:Resource exempt)"),
  "C02": ("proof", "§6 C02", "focus_exact: focusNodes = W3C targets for every shapes/data graph (closure lemma, unbounded), each focus once; correspondence on generated target mixes",
          "theorem (worklist closure = rdfs:subClassOf*) + differential correspondence",
          "Lean kernel; model of Shape.focus_nodes / rdflib transitive_subjects; correspondence via a constraint failing once per focus node"),
@@ -18,12 +18,13 @@ P = {
  "C04": ("proof", "§6 C04", "conforms_iff_no_results, logical/node/property components produce results from conformance facts alone, result ownership; correspondence incl. nested sh:detail on generated compositions",
          "theorem + differential correspondence",
          "Lean kernel; model of Shape.validate and the logical / shape-based components; W3C reference oracle"),
- "C05": ("proof", "§6 C05", "glue theorems (solutions -> results, message templating local to a solution) with the SPARQL engine as an opaque parameter; correspondence with solutions obtained from rdflib directly",
-         "theorem over an opaque engine + differential correspondence", "rdflib's SPARQL engine is a parameter of the model, not verified"),
+ "C05": ("proof", "§6 C05 / §10", "9 theorems over an opaque engine: results = images of the distinct violations of the solutions (membership exact, no duplicates, at most one failure marker), value/path/focus from ?value/?path/?this, messages a function of the result's own bindings, component matching iff all mandatory parameters present, forbidden templates are validation failures (template family: _partial); correspondence with solutions obtained from rdflib directly",
+         "theorem over an opaque engine + differential correspondence", "rdflib's SPARQL engine is a parameter of the model, not verified; forbidden-syntax theorem covers the template family, not arbitrary query text"),
  "C06": ("proof", "§6 C06", "verdict_formula for every option vector (waivers, abort, focus filter): false iff some reported result has an unwaived severity; report well-formedness checked on the real return triple",
          "theorem + oracle on the real return value",
          "Lean kernel; model of Shape.validate / Validator.run; the agreement of literal / text / count and result well-formedness are checked on generated runs, not proved"),
- "C07": ("proof", "§6 C07", "printer theorems + metamorphic relation sparql_mode vs in-memory on the real code", "theorem + metamorphic oracle", "rdflib's SPARQL engine trusted to implement SPARQL"),
+ "C07": ("proof", "§6 C07 / §10", "printer theorems: for every supported path within the regenerated depth cap the printed text is the rendering of an SPath that is well-formed at every SPARQL grammar level and has the SHACL path's SPARQL 1.1 meaning (stacked modifiers, inverse of sequences included); sparql_mode plan is read-only; metamorphic relation sparql_mode vs in-memory on the real code",
+         "theorem (printer = rendering of a grammatical SPath with equal semantics) + metamorphic oracle", "rdflib's SPARQL engine trusted to implement SPARQL; the *_sparql evaluator twins are compared on the code, not proved; unambiguity of the SPARQL path grammar is assumed"),
  "C08": ("proof", "§6 C08", "caller_unchanged: invariant over the pipeline op sequence for every heap, config and failure point; exhaustive config enumeration with fault injection on the real code",
          "theorem (invariant by induction over operations) + exhaustive fault enumeration", "Lean kernel; heap model of Validator.run / RuleExpandRunner.run"),
  "C09": ("proof", "§6 C09", "perm_invariant / picks_irrelevant at model level; hash seeds, insertion orders, relabellings and prefixes sampled on the real code in separate processes",
@@ -34,8 +35,8 @@ P = {
          "theorem (relation between runs) + metamorphic oracle", "Lean kernel; model of the waiver logic of Shape.validate"),
  "C12": ("proof", "§6 C12", "nonconforming_has_unwaived_result and the verdict formula with abort_on_first for every input; abort vs complete run compared on the real code (verdict, subset)",
          "theorem + metamorphic oracle", "verdict equality abort/complete is checked on the code, its model-level proof is partial (DESIGN §6 C12)"),
- "C13": ("proof", "§6 C13", "selection options vs target-rewritten shapes graph on the real code; model of use_shapes gathering in the correspondence",
-         "metamorphic oracle + differential correspondence (theorems in progress)", "equivalence theorems not yet proved: the claim rests on the correspondence and the rewrite oracle"),
+ "C13": ("proof", "§6 C13 / §10", "nested_checks_unfiltered (every nested evaluation is the same computation with and without focus_nodes, any depth), focus list under F = focus list on any target-narrowed shapes graph (as sets; skipped iff skipped), both options apply each selected shape to each node, use_shapes evaluates exactly the selected shapes; selection options vs target-rewritten shapes graph on the real code incl. rules",
+         "theorem (relation between runs) + metamorphic oracle + differential correspondence", "order-independence of the constraint loop in the focus list and equality of the two shape harvests are compared on the code, not proved (focus_narrows_targets_partial)"),
  "C14": ("proof", "§6 C14", "union_equiv / preexpanded_equiv with the closure as an opaque parameter; metamorphic oracle on the real code", "theorem over an opaque closure + metamorphic oracle", "owlrl is not verified"),
  "C15": ("proof", "§6 C15", "rules model vs reference procedure", "theorem + differential correspondence", "CONSTRUCT engine is a parameter"),
  "C16": ("proof", "§6 C16", "exit-code table theorems over the regenerated except chain; malformed-parameter kind table enumerated on the real code", "theorem over regenerated tables + exhaustive kind enumeration", ""),
